@@ -231,10 +231,21 @@ def standard_proof_stage(chk, pid, vo_targets=None):
         st = props_status(pid)
         if not st["ok"]:
             broken = (broken or "") + " proof obligations of props/%s.v not discharged: %s" % (pid, st["output"][-400:])
+    coqchk_note = None
+    if ok and st["ok"] and chk.tier == "thorough":
+        # independent re-check of the compiled property file and everything it depends on, with the axioms it relies on
+        rc, co, _ = sh(["coqchk", "-silent", "-o", "-Q", "theories", "GR", "-Q", "props", "GRP", "GRP." + pid], cwd=COQ, timeout=3600)
+        axioms_none = re.search(r"\* Axioms:\s*<none>", co) is not None
+        unsafe = [k for k in ("type-in-type", "unsafe (co)fixpoints", "positivity is assumed") if re.search(re.escape(k) + r":\s*(?!<none>)\S", co)]
+        coqchk_note = "coqchk -o GRP.%s: rc=%d, axioms %s%s" % (pid, rc, "<none>" if axioms_none else "LISTED", (", flags: " + ",".join(unsafe)) if unsafe else "")
+        if rc != 0 or not axioms_none or unsafe:
+            broken = (broken or "") + " coqchk does not accept props/%s.vo without axioms: %s" % (pid, co[-600:])
     chk.coverage.update(obligations=max(st["obligations"], 1), discharged=st["discharged"],
                         theorems=st["theorems"], axioms_reported=st["axioms"],
                         checker_cmd="make -C coq (coqc 8.16.1, full .vo build) && coqc props/%s.v (Print Assumptions parsed)" % pid,
                         trusted_base=list(TRUSTED_BASE_COMMON))
+    if coqchk_note:
+        chk.coverage["coqchk"] = coqchk_note
     return broken
 
 
